@@ -29,7 +29,7 @@ All vectors are flat lists in the real-ified layout of ``vlib.flat``.
 import numpy as np
 from hypothesis import strategies as st
 
-from . import build, flat, strategies as vs
+from . import build, flat
 from .core import HarnessError
 from .ref import funcs_conj as R
 
@@ -156,7 +156,7 @@ def geo_of(space, sd):
             bw = weights_of(space[0])
             cw = _pspace_comp_w(sd, m)
             exp = (cw[:, None] * bw[None, :]).ravel()
-            if not np.allclose(exp, w, rtol=1e-12, atol=0):
+            if not np.allclose(exp, w, rtol=1e-5, atol=0):
                 raise HarnessError('power-space weights do not factorise')
             return R.Geo(w, power=(m, bw.size), comp_w=cw, base_w=bw)
         if base.get('power') is not None and \
@@ -527,13 +527,18 @@ def build_func(space, sd, fd, geo=None):
         f = S.FunctionalQuadraticPerturb(c.f, quadratic_coeff=a,
                                          linear_term=u, constant=k)
         ref = None if rv(c) is None else R.QuadPerturb(rv(c), a, uf, k)
+        region = {}
+        if c.f.is_linear and a == 0 and k != 0:
+            # flagged linear by FunctionalQuadraticPerturb although the
+            # constant makes it affine
+            region['qplin'] = 1
 
         def asm(x):
             v = c.value(x) + a * x.inner(x) + k
             if u is not None:
                 v = v + x.inner(u)
             return v
-        return node(f, ref, [c], asm)
+        return node(f, ref, [c], asm, region=region)
     if cls == 'sum':
         c1, c2 = child('f'), child('g')
         f = c1.f + c2.f
